@@ -340,8 +340,8 @@ def envKey (pfx : String) (f : FT) : String :=
 /-- the value `envValue` produces for one translated field -/
 def envField (pfx : String) (lookup : String → Option String) (f : FT) : Outcome Val :=
   match tagGet f.1.tags "dialsenv" with
-  | none => Outcome.panic "empty dialsenv tag"
-  | some "" => Outcome.panic "empty dialsenv tag"
+  | none => Outcome.err "empty dialsenv tag"
+  | some "" => Outcome.err "empty dialsenv tag"
   | some name =>
     let full := if pfx == "" then name else pfx ++ "_" ++ name
     match lookup full with
